@@ -28,16 +28,17 @@ func TestC08(t *testing.T) {
 }
 
 type c08Sample struct {
-	Txs        int      `json:"transactions"`
-	Preloaded  int      `json:"preloaded_chain"`
-	Tasks      int      `json:"submitter_tasks"`
-	FaultKinds []string `json:"fault_kinds_enabled,omitempty"`
-	EnumPoint  string   `json:"enumerated_fault_point,omitempty"`
-	Offers     int      `json:"offers"`
-	Stored     int      `json:"stored"`
-	HighClock  uint32   `json:"highest_clock"`
-	Restarts   int      `json:"restarts"`
-	Repair     bool     `json:"repair_scenario,omitempty"`
+	Txs              int      `json:"transactions"`
+	Preloaded        int      `json:"preloaded_chain"`
+	Tasks            int      `json:"submitter_tasks"`
+	FaultKinds       []string `json:"fault_kinds_enabled,omitempty"`
+	EnumPoint        string   `json:"enumerated_fault_point,omitempty"`
+	Offers           int      `json:"offers"`
+	Stored           int      `json:"stored"`
+	HighClock        uint32   `json:"highest_clock"`
+	Restarts         int      `json:"restarts"`
+	Repair           bool     `json:"repair_scenario,omitempty"`
+	ConcurrentRepair bool     `json:"repair_running_during_adds,omitempty"`
 }
 
 func c08Body(s *simkit.Sim, rc *simkit.RunCtx) {
@@ -59,7 +60,9 @@ func c08Body(s *simkit.Sim, rc *simkit.RunCtx) {
 	}
 	ntasks := 2 + s.D.Decide("tasks", 3)
 	repair := !enum && s.D.Decide("repair", 8) == 7
-	sample.Txs, sample.Preloaded, sample.Tasks, sample.Repair = size, preload, ntasks, repair
+	// the repair procedure running (circuit red) while transactions are being added
+	concurrentRepair := !enum && !repair && s.D.Decide("repair-concurrent", 6) == 5
+	sample.Txs, sample.Preloaded, sample.Tasks, sample.Repair, sample.ConcurrentRepair = size, preload, ntasks, repair, concurrentRepair
 
 	// ---- faults ----
 	f := h.w.F
@@ -77,6 +80,9 @@ func c08Body(s *simkit.Sim, rc *simkit.RunCtx) {
 		}{{seams.KVOpErr, 15}, {seams.KVCommitFail, 40}, {seams.KVCrashBeforeCommit, 15}, {seams.KVCrashAfterCommit, 15}, {seams.KVCrashBetweenHooks, 15}, {seams.KVCrashBeforeTx, 8}}
 		mode := s.D.Decide("faultmode", 4) // 0: fault-free batch
 		for _, k := range kinds {
+			if concurrentRepair && len(k.k) > 5 && k.k[:5] == "crash" {
+				continue
+			}
 			if mode != 0 && s.D.Decide("enable "+k.k, 2) == 1 {
 				f.Rates[k.k] = k.rate
 				sample.FaultKinds = append(sample.FaultKinds, k.k)
@@ -85,8 +91,17 @@ func c08Body(s *simkit.Sim, rc *simkit.RunCtx) {
 		f.MaxFaults = 6
 	}
 
+	if concurrentRepair {
+		// in this single-node world nothing else takes the repair's own mutex, so its store
+		// transactions may be scheduled like any other (no pass-through)
+		s.PassThrough = nil
+	}
 	n := h.start()
-	_ = n
+	if concurrentRepair {
+		for i := 0; i < 3; i++ {
+			n.State().IncorrectStateDetected()
+		}
+	}
 	// ---- corpus ----
 	root := h.corpus.Root()
 	if err := h.node().State().Add(context.Background(), root.Tx, root.Payload); err != nil {
@@ -143,6 +158,9 @@ func c08Body(s *simkit.Sim, rc *simkit.RunCtx) {
 			for len(queue) > 0 && !s.Failed() {
 				t := queue[0]
 				queue = queue[1:]
+				if concurrentRepair {
+					time.Sleep(time.Duration(1+s.D.Decide("pause", 6)) * time.Second)
+				}
 				o := h.offerTx(fmt.Sprintf("sub%d", ti), t)
 				if o.Crashed {
 					s.Yield("after-crash")
